@@ -675,7 +675,7 @@ func init() {
 	ev.Define("race_free", ev.Options{
 		Rule: "shared Loop / Polygon (nested rings) / ShapeIndex (1-5 mixed shapes), index not built, built (1/6..1/8), or (ShapeIndex) built and then extended so that the queries trigger a rebuild; 2-8 goroutines x 1-5 drawn read-only queries with private query objects, " +
 			"released by one barrier, drawn spin/yield delays at the hook points, 3 repetitions in a -race child process; non-trivial when at least 2 goroutines found the index stale (reached index.beforeLock) in one repetition, or the child was killed by a race report",
-		Quick: 360, Thorough: 12000, Journal: true,
+		Quick: 600, Thorough: 12000, Journal: true,
 	}, genCase("free"), viaChild("race_free", checkInProc))
 	ev.Define("ctl_sampled", ev.Options{
 		Rule: "same objects and queries, 2-4 goroutines serialised by a token scheduler installed through VerifHook (one goroutine runs between two hook points; a goroutine blocked on the index mutex is recognised by its wait state and another one is released); " +
